@@ -256,6 +256,24 @@ def source_dedup():
     return bool(re.search(r"seen_connections\s*\.\s*insert\s*\(", body))
 
 
+def source_keeps_dead_subscribers():
+    """Does `Server::cleanup_connections` still skip closing connections that hold subscriptions?
+    (then a subscriber that went away keeps being counted by PUBLISH until two writes to it failed)"""
+    try:
+        src = open(os.path.join(REPO, "src", "network", "server.rs"), encoding="utf-8", errors="replace").read()
+    except OSError as e:
+        raise InternalError("cannot read server.rs: %s" % e)
+    src = re.sub(r"//[^\n]*", "", src)
+    m = re.search(r"\bfn\s+cleanup_connections\b[^{]*\{", src)
+    if not m:
+        return None
+    i, depth = m.end(), 1
+    while i < len(src) and depth:
+        depth += {"{": 1, "}": -1}.get(src[i], 0)
+        i += 1
+    return bool(re.search(r"pubsub\s*\.\s*is_subscribed\s*\(", src[m.end():i]))
+
+
 def load_findings():
     fs = [f for f in load_known_findings().get("open", []) if isinstance(f, dict) and f.get("property") == "C14"]
     if os.path.exists(PENDING_FINDINGS):
@@ -277,10 +295,34 @@ class C14:
         self.model = lean_driver("pubsub")
         self.oracle_failures = []     # (kind, detail): the property itself fails on the implementation
         self.disagreements = []       # impl vs Code model (or Lean Spec vs the oracle written here)
+        self.tcp = None
 
     def close(self):
         self.impl.close()
         self.model.close()
+        if self.tcp is not None:
+            self.tcp.close()
+            self.tcp = None
+
+    def rerun(self, ops, layer):
+        if layer == "tcp":
+            if self.tcp is None:
+                self.tcp = Tcp(self)
+            return tcp_history(self, self.tcp, ops, record=False)
+        return self.run_history(ops, record=False, info_every=1)
+
+    def tcp_run(self, ops, tag):
+        if self.tcp is None:
+            self.tcp = Tcp(self)
+        fails, dis = tcp_history(self, self.tcp, ops)
+        for f in fails:
+            f["tag"] = tag
+            f["history"] = ops
+            self.oracle_failures.append((f["kind"], f))
+        for d in dis:
+            d["tag"] = tag
+            d["history"] = ops
+            self.disagreements.append(d)
 
     def ask_model(self, line):
         b = self.model.ask(line)
@@ -410,18 +452,20 @@ class C14:
         for f in fails:
             f["tag"] = tag
             f["history"] = ops
+            f["layer"] = "inproc"
             self.oracle_failures.append((f["kind"], f))
         for d in dis:
             d["tag"] = tag
             d["history"] = ops
+            d["layer"] = "inproc"
             self.disagreements.append(d)
 
-    def shrink(self, ops, pred):
+    def shrink(self, ops, pred, layer="inproc"):
         """smallest sub-history on which `pred(fails, dis)` still holds"""
         def fails(cand):
-            f, d = self.run_history(cand, record=False, info_every=1)
+            f, d = self.rerun(cand, layer)
             return pred(f, d)
-        return shrink_list(list(ops), fails, max_steps=300)
+        return shrink_list(list(ops), fails, max_steps=300 if layer == "inproc" else 120)
 
     # -- glob matcher ----------------------------------------------------------
     def glob_batch(self, p, texts, tag):
@@ -521,6 +565,18 @@ class C14:
             self.glob_exhaustive(6, 5)
         else:
             self.glob_exhaustive(5, 4)
+        # the real server, several client sockets
+        self.tcp_run([("sub", 1, "c", [b"news"]), ("sub", 1, "p", [b"n*"]), ("sub", 2, "p", [b"n*", b"*"]), ("pub", 3, b"news", b"\x00\r\n"),
+                      ("pub", 1, b"news", b"self")], "tcp-corpus-dedup")
+        self.tcp_run([("sub", 1, "c", [b"news"]), ("sub", 2, "c", [b"news"]), ("disc", 1, "close"), ("pub", 3, b"news", b"m")], "tcp-corpus-dead-subscriber")
+        self.tcp_run([("sub", 1, "c", [b"news"]), ("disc", 1, "quit"), ("pub", 3, b"news", b"m"), ("sub", 1, "c", [b"news"]), ("pub", 3, b"news", b"m2")],
+                     "tcp-corpus-dead-subscriber-quit")
+        tr = r.fork("tcp")
+        for i in range(40 * (8 if tier == "thorough" else 1)):
+            ops = gen_tcp_history(tr, tr.range(6, 30))
+            self.tcp_run(ops, "tcp-random")
+            if i < 2:
+                rep.sample({"tcp_history": [op_line(o, self.dedup) for o in ops[:8]]})
 
 
 def hexacks(acks):
@@ -564,25 +620,259 @@ def same_up_to_iteration_order(impl, code, want, dedup):
     return True
 
 
+
+# ------------------------------------------------------------------ TCP: the real server
+def frame_event(f):
+    """a frame read from a socket -> the event notation of the Lean driver (`showEvent`)"""
+    if f[0] == "i":
+        return "n:%d" % f[1]
+    if f[0] == "a" and f[1] and all(x[0] in ("b", "i") for x in f[1]):
+        xs = f[1]
+        kind = xs[0][1] if xs[0][0] == "b" else None
+        acks = {b"subscribe": "c:0", b"unsubscribe": "c:1", b"psubscribe": "p:0", b"punsubscribe": "p:1"}
+        if kind in acks and len(xs) == 3 and xs[1][0] == "b" and xs[2][0] == "i":
+            return "a:%s:%s:%d" % (acks[kind], hx(xs[1][1]), xs[2][1])
+        if kind == b"message" and len(xs) == 3 and xs[1][0] == "b" and xs[2][0] == "b":
+            return "m:%s:%s" % (hx(xs[1][1]), hx(xs[2][1]))
+        if kind == b"pmessage" and len(xs) == 4 and all(x[0] == "b" for x in xs):
+            return "p:%s:%s:%s" % (hx(xs[1][1]), hx(xs[2][1]), hx(xs[3][1]))
+    return "?:" + repr(f)
+
+
+def parse_events(s):
+    return [] if s == "." else s.split("|")
+
+
+class Tcp:
+    """Logical connections 1..4 as sockets to a real server; a control connection for barriers.
+    After every operation each live connection is drained up to a PING barrier, so that every
+    frame is attributed to the operation that caused it."""
+
+    def __init__(self, check):
+        import server as srvmod
+        self.srvmod = srvmod
+        self.check = check
+        self.srv = srvmod.Server("c14")
+        self.ctl = self.srv.client()
+        self.socks = {}
+        self.ghosts = []     # subscription sets of connections that went away while subscribed (this history)
+
+    def restart(self):
+        self.close()
+        self.srv = self.srvmod.Server("c14")
+        self.ctl = self.srv.client()
+        self.socks = {}
+        self.ghosts = []
+
+    def close(self):
+        for cl in list(self.socks.values()) + [self.ctl]:
+            cl.close()
+        self.srv.stop()
+        self.socks = {}
+
+    def sock(self, c):
+        if c not in self.socks:
+            self.socks[c] = self.srv.client()
+        return self.socks[c]
+
+    def drain(self, cl):
+        """frames pending on `cl` up to the answer of a PING sent now"""
+        cl.send("PING")
+        out = []
+        while True:
+            f = cl.read_reply()
+            if f == ("s", b"PONG"):
+                return out
+            out.append(frame_event(f))
+
+    def reset(self):
+        """leave cleanly (so that nothing of this history stays subscribed on the server)"""
+        for cl in self.socks.values():
+            try:
+                cl.send("UNSUBSCRIBE")
+                cl.send("PUNSUBSCRIBE")
+                self.drain(cl)
+            except Exception:
+                pass
+            cl.close()
+        self.socks = {}
+        self.settle()
+
+    def settle(self):
+        # two round trips = at least one complete iteration of the server loop in between
+        self.ctl.cmd("PING")
+        self.ctl.cmd("PING")
+
+    def do(self, op):
+        """execute one operation; returns {conn: [events caused by it]}"""
+        got = {}
+        if op[0] == "disc":
+            cl = self.socks.pop(op[1], None)
+            if cl is not None:
+                got[op[1]] = self.drain(cl)
+                if op[2] == "quit":
+                    cl.send("QUIT")
+                    try:
+                        cl.read_reply()
+                    except Exception:
+                        pass
+                cl.close()
+            self.settle()
+        else:
+            cl = self.sock(op[1])
+            if op[0] == "sub":
+                cl.send("SUBSCRIBE" if op[2] == "c" else "PSUBSCRIBE", *op[3])
+            elif op[0] == "unsub":
+                cl.send("UNSUBSCRIBE" if op[2] == "c" else "PUNSUBSCRIBE", *(op[3] or []))
+            elif op[0] == "pub":
+                cl.send("PUBLISH", op[2], op[3])
+            got[op[1]] = self.drain(cl)
+        for c, other in self.socks.items():
+            if c not in got:
+                got[c] = self.drain(other)
+        return got
+
+
+def canon_events(events, unsub_all):
+    """frames of one connection caused by one operation, in comparable form: PUBLISH replies apart;
+    the rest sorted (hash-map order), except that the acknowledgements of an argument-less
+    (P)UNSUBSCRIBE keep their count sequence and have their names sorted"""
+    ints = [e for e in events if e.startswith("n:")]
+    rest = [e for e in events if not e.startswith("n:")]
+    if unsub_all:
+        acks = [e.split(":") for e in rest if e.startswith("a:")]
+        names = sorted(a[3] for a in acks)
+        rest = [e for e in rest if not e.startswith("a:")] + [":".join(a[:3] + [names[j], a[4]]) for j, a in enumerate(acks)]
+        return ints, rest
+    return ints, sorted(rest)
+
+
+def tcp_history(check, tcp, ops, record=True):
+    """One history on the real server, the Lean models and the oracle.  Returns (fails, dis)."""
+    rep = check.rep
+    fails, dis = [], []
+    if tcp.ghosts or not record:
+        # connections that went away while subscribed may linger on the server (listed finding):
+        # never let them leak into another history; shrinking and replays always get a fresh server
+        tcp.restart()
+    else:
+        tcp.reset()
+    check.ask_model("reset")
+    orc = Oracle()
+    prev = {c: ([], []) for c in (1, 2, 3, 4)}
+    for i, op in enumerate(ops):
+        line = op_line(op, check.dedup)
+        try:
+            got = tcp.do(op)
+        except (TimeoutError, tcp.srvmod.Closed, tcp.srvmod.ProtocolError, OSError) as e:
+            fails.append({"i": i, "kind": "total", "op": line, "impl": "%s: %s" % (type(e).__name__, e), "layer": "tcp",
+                          "why": "no (well-formed) reply from the server; alive=%s %s" % (tcp.srv.alive(), tcp.srv.log_tail(300))})
+            tcp.restart()
+            break
+        check.ask_model(line)
+        if record:
+            rep.evaluations += 1
+            rep.count("tcp.op." + op[0])
+        if op[0] == "disc":
+            h = orc.held.get(op[1])
+            if h and (h["c"] or h["p"]):
+                tcp.ghosts.append({"c": list(h["c"]), "p": list(h["p"])})
+            orc.disc(op[1])
+        elif op[0] == "sub":
+            orc.sub(op[1], op[2], op[3])
+        elif op[0] == "unsub":
+            orc.unsub(op[1], op[2], op[3])
+        gmax = 0
+        if op[0] == "pub":
+            gmax = sum((1 if op[2] in g["c"] else 0) + sum(1 for p in g["p"] if spec_glob(p, op[2])) for g in tcp.ghosts)
+        for c in (1, 2, 3, 4):
+            m = split_cs(check.ask_model("recv %d %d" % (check.dedup, c)), ("C", "S"))
+            ec, es = parse_events(m["C"]), parse_events(m["S"])
+            new_c, new_s = ec[len(prev[c][0]):], es[len(prev[c][1]):]
+            prev[c] = (ec, es)
+            real = got.get(c, [])
+            if record:
+                rep.evaluations += 1
+            ua = op[0] == "unsub" and op[3] is None and c == op[1]
+            ints_r, real_f = canon_events(real, ua)
+            ints_c, code_f = canon_events(new_c, ua)
+            ints_s, spec_f = canon_events(new_s, ua)
+            if op[0] == "unsub" and c == op[1] and not real and not new_c and new_s:
+                # nothing held, nothing answered: no acknowledgement whose count could be wrong (C05's subject)
+                if record:
+                    rep.count("tcp.unsub.silent-no-subscriptions")
+                continue
+            base = {"i": i, "op": line, "conn": c, "layer": "tcp"}
+            # -- the property, judged on what the sockets delivered
+            if real_f != spec_f:
+                shape = "other"
+                if op[0] == "pub" and len(real_f) == 1 and len(spec_f) >= 2 and real_f[0] in spec_f and \
+                        (real_f[0].startswith("m:") or not any(e.startswith("m:") for e in spec_f)):
+                    shape = "one-per-connection"
+                fails.append(dict(base, kind="stream", impl="|".join(real) or ".", want="|".join(new_s) or ".", shape=shape,
+                                  why="frames read by connection %d differ from one per matching subscription / the acknowledgements due" % c))
+            if ints_r != ints_s:
+                det = dict(base, kind="publish", impl="|".join(ints_r) or ".", want="|".join(ints_s) or ".",
+                           why="PUBLISH reply is not the number of deliveries to the clients subscribed at that moment")
+                if op[0] == "pub" and len(ints_r) == len(ints_c) == len(ints_s) == 1:
+                    n_r, n_c, n_s = int(ints_r[0][2:]), int(ints_c[0][2:]), int(ints_s[0][2:])
+                    if 0 <= n_r - n_c <= gmax and n_c <= n_s:
+                        if n_r > n_c:
+                            fails.append(dict(det, shape="dead-subscriber-counted", ghosts=n_r - n_c))
+                        if n_c < n_s:
+                            fails.append(dict(det, shape="one-per-connection"))
+                    else:
+                        fails.append(dict(det, shape="other"))
+                else:
+                    fails.append(dict(det, shape="other"))
+            # -- correspondence with Code, up to hash-map order; a dead subscriber still being counted is a
+            #    listed defect of the connection handling, which Code (the manager) does not contain
+            ok_c = real_f == code_f
+            if not ok_c and check.dedup and sorted(e.split(":")[0] for e in real_f) == sorted(e.split(":")[0] for e in code_f):
+                # which matching pattern a de-duplicated pmessage names depends on hash-map order
+                ok_c = all(e in spec_f for e in real_f)
+            if not ok_c:
+                dis.append(dict(base, impl="|".join(real) or ".", code="|".join(new_c) or "."))
+            if ints_r != ints_c:
+                if not (len(ints_r) == len(ints_c) == 1 and 0 < int(ints_r[0][2:]) - int(ints_c[0][2:]) <= gmax):
+                    dis.append(dict(base, impl="|".join(ints_r) or ".", code="|".join(ints_c) or "."))
+            if record and (real or new_s):
+                rep.nontrivial(("tcp", op[0], c == op[1], min(len(real_f), 3), min(len(spec_f), 3), real_f == spec_f, ints_r == ints_s))
+    return fails, dis
+
+
+def gen_tcp_history(r, n_ops):
+    ops = gen_history(r, n_ops, server_like=True)
+    return [(o[0], o[1], r.choice(["close", "close", "quit"])) if o[0] == "disc" else o for o in ops]
+
+
 def classify(kind, det, findings):
     """Does this oracle failure match a listed finding?  (by the finding's shape)"""
     for f in findings:
-        if f.get("match") == "publish-one-delivery-per-connection" and kind == "publish" and det.get("shape") == "one-per-connection":
+        if f.get("match") == "publish-one-delivery-per-connection" and kind in ("publish", "stream") and det.get("shape") == "one-per-connection":
+            return f
+        if f.get("match") == "dead-subscriber-counted" and kind == "publish" and det.get("shape") == "dead-subscriber-counted":
             return f
     return None
+
+
+def strip(d):
+    return {k: v for k, v in d.items() if k != "history"}
 
 
 def minimal_replay(c, kind, det):
     """shrink the history of an oracle failure to the smallest one failing in the same way"""
     if "history" not in det:
-        return {"family": "pubsub", "ops": [det["op"]], "failure": {k: v for k, v in det.items() if k != "history"}}
+        return {"family": "pubsub", "layer": "glob", "ops": [det["op"]], "failure": strip(det)}
+    layer = det.get("layer", "inproc")
     ops = det["history"][:det["i"] + 1]
     want_kind, want_shape = kind, det.get("shape")
-    small = c.shrink(ops, lambda fs, ds: any(f["kind"] == want_kind and f.get("shape") == want_shape for f in fs))
-    fs, _ = c.run_history(small, record=False, info_every=1)
-    f0 = next((f for f in fs if f["kind"] == want_kind), det)
-    return {"family": "pubsub", "dedup": c.dedup, "ops": [op_json(o) for o in small], "lines": [op_line(o, c.dedup) for o in small],
-            "failure": {k: v for k, v in f0.items() if k != "history"}}
+    same = lambda fs, ds: any(f["kind"] == want_kind and f.get("shape") == want_shape for f in fs)
+    small = c.shrink(ops, same, layer)
+    fs, _ = c.rerun(small, layer)
+    f0 = next((f for f in fs if f["kind"] == want_kind and f.get("shape") == want_shape), det)
+    return {"family": "pubsub", "layer": layer, "dedup": c.dedup, "ops": [op_json(o) for o in small],
+            "lines": [op_line(o, c.dedup) for o in small], "failure": strip(f0)}
 
 
 def main(tier, seed):
@@ -592,18 +882,26 @@ def main(tier, seed):
                 "unsubscribe_all (disconnect), PUBLISH with binary payloads; after each operation the returned acknowledgements / receiver "
                 "lists, and every 5 operations get_subscription_info / is_subscribed / channel_subscriber_count, are compared with Code and "
                 "judged by the set-of-subscriptions oracle; pattern_matches vs Code.globBytes vs Spec.glob vs a regex oracle on grammar-"
-                "generated pairs and on all pairs of a small scope (model validation). distinct = (operation, kind, sizes, outcome class) tuples")
+                "generated pairs and on all pairs of a small scope (model validation). TCP: the same kind of histories with 4 client sockets "
+                "on the real server (disconnect = close or QUIT+close); after every operation every live socket is drained up to a PING "
+                "barrier and the frames are compared with the per-connection streams of Code and Spec. "
+                "distinct = (operation, kind, sizes, outcome class) tuples")
     rep.assumptions = [
         "HashMap/HashSet iteration order is arbitrary: acknowledgements of an argument-less (P)UNSUBSCRIBE and receiver lists are compared as multisets; "
         "under de-duplication the pattern named in a pmessage is any matching pattern the connection holds",
         "bytes are modelled as Nat; the harness sends values < 256 only",
         "the mutexes of PubSubManager are not modelled: the server calls it from the single command thread only",
         "[...] classes are not part of the grammar of pubsub.rs's matcher (documented as `*` and `?`); Spec.glob gives meaning to * ? \\x only",
+        "TCP layer: one command at a time per connection (no pipelining); frames are attributed to operations by PING barriers; "
+        "when the server notices a closed socket is connection handling (server.rs), not part of the Lean model: the model's `disconnect` is the call of unsubscribe_all",
     ]
     ok, log, errs = proof_phase(rep, families=["pubsub"])
     build_harness("pubsub")
+    build_server()
     dedup = source_dedup()
+    keeps_dead = source_keeps_dead_subscribers()
     rep.extra["source_dedup"] = dedup
+    rep.extra["source_keeps_dead_subscribers"] = keeps_dead
     findings = load_findings()
     c = C14(rep, True if dedup is None else dedup)
     try:
@@ -622,15 +920,17 @@ def main(tier, seed):
         for fid, (f, det) in seen_known.items():
             rep.known(fid, f["what"])
         for f in findings:
-            if f["id"] not in seen_known and not (f.get("match") == "publish-one-delivery-per-connection" and dedup is False):
+            fixed_in_source = (f.get("match") == "publish-one-delivery-per-connection" and dedup is False) or \
+                              (f.get("match") == "dead-subscriber-counted" and keeps_dead is False)
+            if f["id"] not in seen_known and not fixed_in_source:
                 rep.violation("known finding %s no longer reproduces: model/known-findings file is stale" % f["id"],
                               {"finding": f, "obligation": f.get("lean_witness")}, no_input=True)
         if new_fail:
-            new_fail.sort(key=lambda kd: (len(kd[1].get("history", [])), len(json.dumps(kd[1], default=repr))))
+            new_fail.sort(key=lambda kd: (len(kd[1].get("history", [])), len(json.dumps(strip(kd[1]), default=repr))))
             kind, det = new_fail[0]
             replay_obj = minimal_replay(c, kind, det)
             rep.violation("C14 %s oracle fails on the implementation: %s" % (kind, det["why"]),
-                          {"replay": replay_obj, "others": [{k: v for k, v in d.items() if k != "history"} for _, d in new_fail[1:6]], "lean_errors": errs[:5]})
+                          {"replay": replay_obj, "others": [strip(d) for _, d in new_fail[1:6]], "lean_errors": errs[:5]})
         elif not ok:
             rep.violation("proof obligations of C14 no longer check", {"theorem_errors": errs[:10], "log_tail": log[-3000:]}, no_input=True)
         elif dedup is None:
@@ -640,12 +940,13 @@ def main(tier, seed):
             d0 = c.disagreements[0]
             small = None
             if "history" in d0:
-                small = c.shrink(d0["history"][:d0["i"] + 1], lambda fs, ds: bool(ds))
+                small = c.shrink(d0["history"][:d0["i"] + 1], lambda fs, ds: bool(ds), d0.get("layer", "inproc"))
             rep.violation("correspondence Code.PubSub vs implementation broke (%d disagreements) but the property oracles hold on everything explored" % len(c.disagreements),
-                          {"correspondence": "Ferrous.PubSub.{subscribe,unsubscribe,unsubscribeAll,publish,globBytes} vs ferrous::pubsub",
+                          {"correspondence": "Ferrous.PubSub.{subscribe,unsubscribe,unsubscribeAll,publish,globBytes,Code.log} vs ferrous::pubsub / the server",
+                           "layer": d0.get("layer", "inproc"),
                            "ops": [op_json(o) for o in small] if small else None,
                            "lines": [op_line(o, c.dedup) for o in small] if small else None,
-                           "disagreements": [{k: v for k, v in d.items() if k != "history"} for d in c.disagreements[:10]]}, no_input=True)
+                           "disagreements": [strip(d) for d in c.disagreements[:10]]}, no_input=True)
         rep.extra["model_disagreements"] = len(c.disagreements)
         rep.extra["oracle_failures"] = len(c.oracle_failures)
     finally:
@@ -664,14 +965,18 @@ def replay(path):
     c = C14(rep, True if dedup is None else dedup)
     try:
         if rp.get("ops") and isinstance(rp["ops"][0], list):
+            layer = rp.get("layer", "inproc")
+            if layer == "tcp":
+                build_server()
             ops = [op_unjson(j) for j in rp["ops"]]
-            fails, dis = c.run_history(ops, record=False, info_every=1)
+            fails, dis = c.rerun(ops, layer)
+            print("layer: %s, de-duplication in source: %s" % (layer, dedup))
             for o in ops:
                 print("  " + op_line(o, c.dedup))
             for f in fails:
-                print("ORACLE-FAILURE %s: %s impl=%s want=%s (%s)" % (f["kind"], f["op"], f.get("impl"), f.get("want"), f["why"]))
+                print("ORACLE-FAILURE %s/%s: %s conn=%s impl=%s want=%s (%s)" % (f["kind"], f.get("shape"), f["op"], f.get("conn"), f.get("impl"), f.get("want"), f["why"]))
             for d in dis:
-                print("MODEL-DISAGREEMENT %s" % {k: v for k, v in d.items() if k != "history"})
+                print("MODEL-DISAGREEMENT %s" % strip(d))
             findings = load_findings()
             bad = [f for f in fails if not classify(f["kind"], f, findings)]
             print("replay: %d oracle failures (%d outside known findings), %d model disagreements" % (len(fails), len(bad), len(dis)))
